@@ -17,7 +17,7 @@ suffix_value = {"pre": -2, "p": 1, "alpha": -4, "beta": -3, "rc": -1}
 # to prevent version chunks from showing up in the package
 
 isvalid_version_re = regexp(
-    r"^(?:\d+)(?:\.\d+)*[a-zA-Z]?(?:_(p(?:re)?|beta|alpha|rc)\d*)*\Z"
+    r"^(?:[0-9]+)(?:\.[0-9]+)*[a-zA-Z]?(?:_(p(?:re)?|beta|alpha|rc)[0-9]*)*\Z"
 )
 
 # see https://github.com/pkgcore/pkgcore/issues/453 for why this regex underscores
@@ -50,7 +50,7 @@ def isvalid_pkg_name(chunks):
 
 
 def isvalid_rev(s: str):
-    return s and s[0] == "r" and s[1:].isdigit()
+    return s and s[0] == "r" and s[1:].isascii() and s[1:].isdigit()
 
 
 class Revision(UserString):
